@@ -189,3 +189,80 @@ fn c16_again() {
     std::mem::forget(g);
     kani::cover!(true, "COVER:end");
 }
+
+/// C01.flavour.dispatch, 32-bit ARM arm (T8 variant: the `target_arch = "arm"` arm of internal.rs selected):
+/// the dispatch invokes the ARM installer of the requested kind with exactly what it was given (the two
+/// installers are replaced by recorders; their own contracts are c16_* and c16_bool_modular).
+#[cfg(verif_arch_arm)]
+#[kani::proof]
+#[kani::unwind(14)]
+#[kani::stub(<PatchArm as PatchTrait>::replace_function_with_other_function, rec_arm_install)]
+#[kani::stub(<PatchArm as PatchTrait>::replace_function_return_boolean, rec_arm_bool)]
+fn c01_dispatch_arm() {
+    let src: usize = kani::any();
+    let fake: usize = kani::any();
+    kani::assume(src != 0 && fake != 0);
+    let is_bool: bool = kani::any();
+    let v: bool = kani::any();
+    let w = crate::injector_core::internal::WhenCalled::new(fp_int(src));
+    let g = if is_bool { w.will_return_boolean_guard(v) } else { w.will_execute_guard(fp_int(fake)) };
+    unsafe {
+        crate::obligations! {
+            (B_CALLS + BB_CALLS == 1 && (if is_bool { BB_CALLS == 1 } else { B_CALLS == 1 })) => "OBL:C01.flavour.dispatch.arm.kind: exactly the ARM installer of the requested kind runs, once",
+            (if is_bool { BB_SRC == src } else { B_SRC == src }) => "OBL:C01.flavour.dispatch.arm.src: the ARM installer is handed exactly the function given to the builder",
+            (is_bool || B_TARGET == fake) => "OBL:C01.flavour.dispatch.arm.target: the ARM installer is handed exactly the replacement given",
+            (!is_bool || BB_VALUE == v) => "OBL:C10.dispatch.arm.value: the ARM boolean installer is handed exactly the value given",
+        }
+    }
+    std::mem::forget(g);
+    kani::cover!(is_bool, "COVER:bool");
+    kani::cover!(!is_bool, "COVER:raw");
+    kani::cover!(true, "COVER:end");
+}
+
+static mut BB_SRC: usize = 0;
+static mut BB_VALUE: bool = false;
+static mut BB_CALLS: usize = 0;
+fn rec_arm_bool(src: FuncPtrInternal, value: bool) -> PatchGuard {
+    unsafe {
+        BB_SRC = src.as_ptr() as usize;
+        BB_VALUE = value;
+        BB_CALLS += 1;
+    }
+    PatchGuard::new((src.as_ptr() as usize & !1) as *mut u8, Vec::new(), 0, std::ptr::null_mut(), 0)
+}
+
+// ---- the boolean installer against the installer's contract (full-width pointers: on the host the
+// literal word is the fake's address truncated to 32 bits, which cannot tell two host functions apart)
+static mut B_SRC: usize = 0;
+static mut B_TARGET: usize = 0;
+static mut B_CALLS: usize = 0;
+fn rec_arm_install(src: FuncPtrInternal, target: FuncPtrInternal) -> PatchGuard {
+    unsafe {
+        B_SRC = src.as_ptr() as usize;
+        B_TARGET = target.as_ptr() as usize;
+        B_CALLS += 1;
+    }
+    PatchGuard::new((src.as_ptr() as usize & !1) as *mut u8, Vec::new(), 0, std::ptr::null_mut(), 0)
+}
+
+#[kani::proof]
+#[kani::unwind(14)]
+#[kani::stub(<PatchArm as PatchTrait>::replace_function_with_other_function, rec_arm_install)]
+fn c16_bool_modular() {
+    let src: u32 = kani::any();
+    let v: bool = kani::any();
+    kani::assume(src != 0);
+    let g = PatchArm::replace_function_return_boolean(fp_int(src as usize), v);
+    unsafe {
+        let want = if v { return_true as usize } else { return_false as usize };
+        crate::obligations! {
+            (B_CALLS == 1 && B_SRC == src as usize) => "OBL:C10.stub.arm.modular.src: the ordinary installer is invoked once, on the function given",
+            (B_TARGET == want) => "OBL:C10.stub.arm.modular.target: the replacement is the function returning exactly the requested constant (full-width pointer)",
+            ((return_true as usize) != (return_false as usize) && return_true() && !return_false()) => "OBL:C10.stub.arm.modular.consts: the two constant functions are distinct and return true / false",
+        }
+    }
+    std::mem::forget(g);
+    kani::cover!(v, "COVER:true");
+    kani::cover!(true, "COVER:end");
+}
